@@ -259,6 +259,11 @@ func Concretise(e tr.Event, sid string, nm Names) []byte {
 			}
 		}
 		b, _ := json.Marshal(m)
+		if e.Res == "pipe" { // credentials pipelined behind the choice, in the same write
+			c, _ := json.Marshal(map[string]interface{}{"id": m["id"], "state": "authenticating", "scheme": "plain",
+				"from": nm.name("a") + "@" + Domain + "/home", "authentication": map[string]interface{}{"password": credB64("p")}})
+			return append(append(append(b, '\n'), c...), '\n')
+		}
 		return append(b, '\n')
 	}
 	panic("concretise: unknown symbol kind " + e.Kind)
